@@ -130,8 +130,14 @@ pub fn ref_walk(
       }
       Some(Slot::Err(e)) => {
         yielded.insert(Yield::Err(s.to_string()));
+        // missing modules are reported from the importing side when dynamic
+        // edges are followed; roots and configured imports have none
         let ignore = o.follow_dynamic
-          && matches!(e.as_kind(), ModuleErrorKind::Missing { .. });
+          && matches!(
+            e.as_kind(),
+            ModuleErrorKind::Missing { maybe_referrer: Some(r), .. }
+              if !g.imports.contains_key(&r.specifier)
+          );
         if !ignore {
           errors.push(format!("module:{}", e.to_string_with_range()));
         }
